@@ -198,6 +198,8 @@ pub enum FOp {
     EncSymSameState { seed: u64 },
     /// two public-key encryptions handed generators created from the same explicit seed
     EncPkSameState { seed: u64 },
+    /// the same explicit generator state handed to a seed-saving and to a non-saving operation
+    MixedSeedSaving { seed: u64 },
     /// a seeded ciphertext and a seeded public key expanded in this context and in a second,
     /// independently built one ("expands identically on every machine")
     ExpandAcross,
@@ -214,6 +216,7 @@ fn fop_json(o: &FOp) -> Value {
         FOp::EncSymSameState { seed } => json!({"enc-sym-same-state": seed}),
         FOp::EncPkSameState { seed } => json!({"enc-pk-same-state": seed}),
         FOp::ExpandAcross => json!("expand-across-contexts"),
+        FOp::MixedSeedSaving { seed } => json!({"mixed-seed-saving": seed}),
     }
 }
 fn fop_from(v: &Value) -> Option<FOp> {
@@ -241,6 +244,9 @@ fn fop_from(v: &Value) -> Option<FOp> {
     }
     if let Some(s) = o.get("enc-sym-same-state") {
         return Some(FOp::EncSymSameState { seed: s.as_u64()? });
+    }
+    if let Some(s) = o.get("mixed-seed-saving") {
+        return Some(FOp::MixedSeedSaving { seed: s.as_u64()? });
     }
     if let Some(s) = o.get("enc-pk-same-state") {
         return Some(FOp::EncPkSameState { seed: s.as_u64()? });
@@ -463,6 +469,23 @@ fn exec_fop(op: &FOp, sh: &FShared, rng: &mut Prng) -> Produced {
                 p.noise = Some((m, cons, 21));
             }
         }
+        FOp::MixedSeedSaving { seed } => {
+            let s = PRNGSeed(Prng::new(*seed ^ sh.ctx_tag.wrapping_mul(0x9E37_79B9_7F4A_7C15)).bytes64());
+            // public keys are always in NTT form: saving the seed or not must not change the mask
+            let ka = w.keygen.create_public_key_with_u_prng(true, &mut BlakeRNG::from_seed(s));
+            let kb = w.keygen.create_public_key_with_u_prng(false, &mut BlakeRNG::from_seed(s));
+            let (ma, mb) = (mask_hash(ka.as_ciphertext(), ctx), mask_hash(kb.as_ciphertext(), ctx));
+            p.pair = Some((ma, mb, None));
+            p.masks.push(ma);
+            if w.spec.scheme != BFV && ma == mb {
+                // symmetric encryption in the NTT-form schemes likewise
+                let pl = w.random_plain(rng);
+                let a = w.encryptor.encrypt_symmetric_new_with_u_prng(&pl, &mut BlakeRNG::from_seed(s));
+                let mut b = Ciphertext::new();
+                w.encryptor.encrypt_symmetric_with_u_prng(&pl, &mut BlakeRNG::from_seed(s), &mut b);
+                p.pair = Some((mask_hash(&a, ctx), mask_hash(&b, ctx), None));
+            }
+        }
         FOp::ExpandAcross => {
             let other = gen::build_context(&w.spec).expect("second context");
             let c = w.encryptor.encrypt_symmetric_new(&w.random_plain(rng));
@@ -615,6 +638,35 @@ fn run_freshness(scn: &FScn) -> Result<(Vec<(String, String, String)>, u64, u64)
                 all.push((t, i, p));
             }
         }
+        // supplementary (not replayable): real threads hammer one encryptor on the real entropy path;
+        // every stored seed / mask must still be unique
+        {
+            let enc = Arc::new(Encryptor::new(sh.world.ctx.clone()).set_secret_key(sh.world.sk.clone()));
+            let barrier = Arc::new(std::sync::Barrier::new(4));
+            let ctx2 = sh.world.ctx.clone();
+            let handles: Vec<_> = (0..4)
+                .map(|_| {
+                    let enc = enc.clone();
+                    let barrier = barrier.clone();
+                    let ctx2 = ctx2.clone();
+                    std::thread::spawn(move || {
+                        barrier.wait();
+                        (0..40)
+                            .map(|_| {
+                                let c = enc.encrypt_zero_symmetric_new();
+                                (seed_words(&c), mask_hash(&c, &ctx2))
+                            })
+                            .collect::<Vec<_>>()
+                    })
+                })
+                .collect();
+            for (t, h) in handles.into_iter().enumerate() {
+                let v = h.join().map_err(|_| "real thread panicked".to_string())?;
+                for (i, (sw, mh)) in v.into_iter().enumerate() {
+                    all.push((10 + t, i, Produced { what: "concurrent seeded symmetric encryption (real threads, OS entropy)".into(), masks: vec![mh], seeds: sw.into_iter().collect(), secret: None, pair: None, noise: None, same_c0: None, expand_diff: None }));
+                }
+            }
+        }
         // the two long-lived key generators themselves
         if scn.spec.n >= 32 {
             let (a, b) = (util::h64_u64s(sh.world.sk.data()), util::h64_u64s(sh_b.world.sk.data()));
@@ -686,7 +738,8 @@ fn gen_fscn(rng: &mut Prng, run_seed: u64, real_entropy: bool) -> Option<FScn> {
     let threads = (0..nthreads)
         .map(|_| {
             (0..rng.range(2, 8))
-                .map(|_| match rng.below(12) {
+                .map(|_| match rng.below(13) {
+                    12 => FOp::MixedSeedSaving { seed: rng.next_u64() >> 1 },
                     11 => FOp::ExpandAcross,
                     0 => FOp::NewKeygen,
                     1 => FOp::Pk { seed: rng.coin() },
